@@ -2,6 +2,7 @@ package main
 
 import (
 	"fmt"
+	"go/constant"
 	"go/token"
 	"go/types"
 	"sort"
@@ -118,6 +119,9 @@ func memberOfPool(p *Prog, fn *ssa.Function, v ssa.Value, param int, d int) bool
 }
 
 func runC11(p *Prog, r *Report) {
+	// R8: the server the balancer chose (from the cookie or the rotation) is the one the forwarder dials: the outgoing URL keeps the Scheme and Host it was given (shared with C08.R1)
+	r.Borrow(p, runC08, map[string]string{"C08.R1": "C11.R8"}, nil)
+	c11CookieScope(p, r)
 	// R6: the pool and the cookie codecs agree on what "the same server" is (shared with C02.R4)
 	r.Borrow(p, runC02, map[string]string{"C02.R4": "C11.R6"}, nil)
 	impls := cookieValueImpls(p)
@@ -325,7 +329,20 @@ func c11Serve(p *Prog, r *Report) {
 									}
 								}
 								if collect {
-									okAll, why = fullSliceLoop(p, x, ia, func(v ssa.Value) bool { return v == stripConv(ia.X) })
+									// the slice: this very value, or another load of the same field of the receiver (an
+									// index loop reads `len(r.servers)` and `r.servers[i]` separately)
+									_, sf, _, _ := fieldOf(u.X)
+									okAll, why = fullSliceLoop(p, x, ia, func(v ssa.Value) bool {
+										if v == stripConv(ia.X) {
+											return true
+										}
+										u2, ok := v.(*ssa.UnOp)
+										if !ok {
+											return false
+										}
+										_, f2, base2, ok := fieldOf(u2.X)
+										return ok && f2 == sf && base2 == ssa.Value(sv.Params[0])
+									})
 								}
 							}
 						}
@@ -662,7 +679,7 @@ func c11GetBackend(p *Prog, r *Report) {
 						}
 						nSl++
 						ie := ToRat(BuildExpr(p, idx, nil))
-						want := LinCmp{ie.norm(), ">", true}
+						want := LinCmp{ie.norm(), ">", true, false}
 						okG := false
 						for _, e := range edgesImplying(p, fv, want) {
 							if OnlyViaEdge(fv, sl, e) {
@@ -716,6 +733,8 @@ func c11GetBackend(p *Prog, r *Report) {
 func mutantsC11() []Mutant {
 	sc := "roundrobin/stickycookie/"
 	return []Mutant{
+		{Name: "cookie-path-not-defaulted", File: "roundrobin/stickysessions.go", Old: "\t\tPath:     cp,\n", New: "\t\tPath:     opt.Path,\n", More: []Edit{{"roundrobin/stickysessions.go", "\tcp := \"/\"\n\tif opt.Path != \"\" {\n\t\tcp = opt.Path\n\t}\n\n", ""}}, Expect: "C11.R7"},
+		{Name: "aes-expiry-in-nanoseconds", File: "roundrobin/stickycookie/aes_value.go", Old: ".Add(v.ttl).Unix())", New: ".Add(v.ttl).UnixNano())", Expect: "C11.R7"},
 		{Name: "raw-returns-parsed-url", File: sc + "raw_value.go", Old: "\t\tif ok {\n\t\t\treturn u, nil\n\t\t}", New: "\t\tif ok {\n\t\t\tpu, _ := url.Parse(raw)\n\t\t\treturn pu, nil\n\t\t}", Expect: "C11.R1"},
 		{Name: "comparator-drops-path", File: sc + "cookie_value.go", Old: "return u1.Scheme == u.Scheme && u1.Host == u.Host && u1.Path == u.Path, nil", New: "return u1.Scheme == u.Scheme && u1.Host == u.Host, nil", Expect: "C11.R2"},
 		{Name: "no-stickbackend", File: "roundrobin/rr.go", Old: "\t\tif r.stickySession != nil {\n\t\t\tr.stickySession.StickBackend(uri, w)\n\t\t}\n", New: "\t\t_ = r.stickySession.StickBackend\n", Expect: "C11.R3"},
@@ -843,3 +862,119 @@ func poolLabelsOfValue(p *Prog, fn *ssa.Function, v ssa.Value, d int) map[string
 
 // reachableCalls: the call instructions of fn itself (helpers are not followed: Get is a leaf).
 func reachableCalls(p *Prog, fn *ssa.Function) []ssa.CallInstruction { return Calls(fn) }
+
+// c11CookieScope (R7): two attributes decide whether the client presents its cookie and whether it is still
+// honoured. (a) Path: a cookie without a Path is scoped by the client to the directory of the first page —
+// requests elsewhere carry no cookie and are re-balanced — so the Path stored into the issued cookie is
+// non-empty on every path (a constant, or a configured value on the edge that proved it non-empty).
+// (b) expiry stamp of the encrypted codec: Time.UnixNano/UnixMicro/UnixMilli of now+ttl is undefined for
+// legal TTLs that reach past year 2262 (the stamp wraps into the past and every fresh cookie counts as expired).
+func c11CookieScope(p *Prog, r *Report) {
+	nP := 0
+	for _, fn := range p.PkgFuncs("roundrobin") {
+		for _, b := range fn.Blocks {
+			for _, in := range b.Instrs {
+				st, ok := in.(*ssa.Store)
+				if !ok {
+					continue
+				}
+				ct, f, _, ok := fieldOf(st.Addr)
+				if !ok || ct == nil || f != "Path" || ct.Obj().Pkg() == nil || ct.Obj().Pkg().Path() != pkgHTTP || ct.Obj().Name() != "Cookie" {
+					continue
+				}
+				nP++
+				r.Fn(FName(fn))
+				r.Paths++
+				r.Check(nonEmptyString(p, fn, st.Val, st, 0), "C11.R7", FName(fn)+": the affinity cookie's Path is never empty", p.InstrPos(st), "a non-empty constant, or a configured path on the edge that found it non-empty",
+					"the cookie can be issued with an empty Path ("+truncate(BuildExpr(p, st.Val, nil).String(), 80)+"): a client scopes it to the directory of the first page, so its requests to other paths carry no cookie, are re-balanced and receive a second cookie — the client is no longer pinned to one server")
+			}
+		}
+	}
+	r.Floor("C11.R7", nP, 1, "Path attributes of issued cookies")
+	nT := 0
+	for _, fn := range p.PkgFuncs("roundrobin/stickycookie") {
+		for _, c := range Calls(fn) {
+			o := calleeObj(c.Common())
+			if o == nil || o.Pkg() == nil || o.Pkg().Path() != "time" {
+				continue
+			}
+			switch objName(o) {
+			case "Time.UnixNano", "Time.UnixMicro", "Time.UnixMilli":
+			case "Time.Unix":
+				nT++
+				continue
+			default:
+				continue
+			}
+			nT++
+			// receiver derived from Time.Add ?
+			var fromAdd func(v ssa.Value, d int) bool
+			fromAdd = func(v ssa.Value, d int) bool {
+				if d > 6 {
+					return false
+				}
+				if call, ok := stripConv(v).(*ssa.Call); ok {
+					if o2 := calleeObj(call.Common()); o2 != nil && o2.Pkg() != nil && o2.Pkg().Path() == "time" {
+						if objName(o2) == "Time.Add" || objName(o2) == "Time.AddDate" {
+							return true
+						}
+						if len(call.Common().Args) > 0 {
+							return fromAdd(call.Common().Args[0], d+1)
+						}
+					}
+				}
+				return false
+			}
+			if len(c.Common().Args) == 0 {
+				continue
+			}
+			r.Check(!fromAdd(c.Common().Args[0], 0), "C11.R7", FName(fn)+": the expiry stamp does not overflow for long lifetimes", p.InstrPos(c), "deadlines are stamped in seconds",
+				"now+ttl is converted with "+objName(o)+", which is undefined once the deadline passes year 2262 (a TTL of a few hundred years, or 'forever'): the stamp wraps into the past and every cookie is rejected as expired on its first use — no client is ever pinned")
+		}
+	}
+	r.Floor("C11.R7", nT, 1, "integer time stamps in the cookie codecs")
+}
+
+// nonEmptyString: v is a non-empty string constant, or (through phis) on each incoming edge such a constant or a
+// value that a dominating test found != "".
+func nonEmptyString(p *Prog, fn *ssa.Function, v ssa.Value, at ssa.Instruction, d int) bool {
+	if d > 4 {
+		return false
+	}
+	if c, ok := v.(*ssa.Const); ok && c.Value != nil && c.Value.Kind() == constant.String {
+		return constant.StringVal(c.Value) != ""
+	}
+	if ph, ok := v.(*ssa.Phi); ok {
+		for i, e := range ph.Edges {
+			pred := ph.Block().Preds[i]
+			if !nonEmptyString(p, fn, e, pred.Instrs[len(pred.Instrs)-1], d+1) {
+				return false
+			}
+		}
+		return true
+	}
+	// a test `x != ""` of the same expression whose non-empty edge is the only way to `at`
+	want := BuildExpr(p, v, nil).String()
+	for _, ifi := range ifs(fn) {
+		cnd, pos := condStrip(ifi.Cond)
+		bo, ok := cnd.(*ssa.BinOp)
+		if !ok || (bo.Op != token.NEQ && bo.Op != token.EQL) {
+			continue
+		}
+		c, ok := bo.Y.(*ssa.Const)
+		if !ok || c.Value == nil || c.Value.Kind() != constant.String || constant.StringVal(c.Value) != "" {
+			continue
+		}
+		if BuildExpr(p, bo.X, nil).String() != want {
+			continue
+		}
+		k := 0
+		if (bo.Op == token.NEQ) != pos {
+			k = 1
+		}
+		if OnlyViaEdge(fn, at, Edge{ifi.Block(), k}) {
+			return true
+		}
+	}
+	return false
+}
